@@ -9,7 +9,7 @@
 ;; also:  (id ge (ng (slot ...) (slot ...)) ...) -> id Q <0/1 of the internal regexp-match>=? on two constructed match vectors>
 ;; also:  (id reps (from to) ...) -> id X <shape of (sre-expand-reps from to '(seq ($ x)))>
 ;; also:  (id range sre (str start end) ...) -> like R, calling (regexp-matches rx str start end) / (regexp-search rx str start end)
-;; also:  (id fold sre str ...) -> id G F<spans kons saw>;E<regexp-extract>;S<regexp-split>;P<regexp-partition>;R<regexp-replace with "-">
+;; also:  (id fold sre str ...) -> id G F<spans kons saw>;E<regexp-extract>;S<regexp-split>;P<regexp-partition>;R<regexp-replace with "-">;A<regexp-replace-all with "-">
 ;; also:  (id chars cp ...)  ->  id K cp:fold:up:down:word ...   (char-level functions, hex)
 (import (scheme base) (scheme write) (scheme read) (scheme char) (scheme file)
         (scheme process-context) (scheme eval) (only (meta) find-module module-env)
@@ -200,7 +200,7 @@
                (write-string (guard (e (#t (string-append "!" (msg-of e)))) (spans (regexp-search rx s start end) s)))))
            (cdr (cddr c)))))))
      ((eq? (cadr c) 'fold)
-      ;; (id fold sre str ...) -> id G <res> ...   res = F<spans>;E<strs>;S<strs>;P<strs>;R<str>
+      ;; (id fold sre str ...) -> id G <res> ...   res = F<spans>;E<strs>;S<strs>;P<strs>;R<str>;A<str>
       (let ((rx (guard (e (#t (cons 'err (msg-of e)))) (regexp (car (cddr c))))))
         (cond
          ((pair? rx)
@@ -224,7 +224,9 @@
              (write-string ";P")
              (write-string (guard (e (#t (string-append "!" (msg-of e)))) (str-list (regexp-partition rx s))))
              (write-string ";R")
-             (write-string (guard (e (#t (string-append "!" (msg-of e)))) (str-list (list (regexp-replace rx s "-"))))))
+             (write-string (guard (e (#t (string-append "!" (msg-of e)))) (str-list (list (regexp-replace rx s "-")))))
+             (write-string ";A")
+             (write-string (guard (e (#t (string-append "!" (msg-of e)))) (str-list (list (regexp-replace-all rx s "-"))))))
            (cdr (cddr c)))))))
      (else
       (let ((rx (guard (e (#t (cons 'err (msg-of e)))) (regexp (cadr c)))))
